@@ -249,3 +249,208 @@ ENGINES = {}
 _bx = BX()
 for _p in ['C01', 'C02', 'C03', 'C04', 'C05', 'C06', 'C07', 'C08', 'C12', 'C13', 'C15', 'C16']:
     ENGINES[_p] = _bx
+
+
+# ------------------------------------------------------------------------------------------------ SX
+OUTCOME = {1: 'ok', 2: 'deadlock', 3: 'replay-diverged', 4: 'too-long/non-terminating', 5: 'oracle', 6: 'data-race'}
+
+
+class SX:
+    """controlled-scheduler exploration of the real WorkerPool / block constructor (C09, C10, C11)"""
+    ASSUME = ['interleavings are explored at pthread synchronisation operations (lock, condition wait/notify, create, join, exit); code between them is '
+              'treated as atomic, which is sound for data-race-free code -- C11 checks race freedom of the same drivers under TSan on every explored schedule',
+              'condition waits have no spurious wake-ups (they could only hide a lost wake-up)',
+              'preemption-bounded: all schedules with at most the stated number of preemptions, each bound run to completion',
+              'workers <= 3, tasks/blocks <= 3']
+
+    def configs(self, prop, tier):
+        c = []
+        if prop == 'C10':
+            if tier == 'quick':
+                for d in ['D1', 'D2', 'D3', 'D5']:
+                    for w in (1, 2):
+                        for t in (0, 1, 2):
+                            c.append((d, w, t, 0, 2 if (w, t) != (2, 2) or d in ('D1', 'D3') else 1))
+                for w in (1, 2, 3):
+                    c.append(('D4', w, 0, 0, 2))
+                c.append(('D1', 3, 2, 0, 1)); c.append(('D3', 3, 3, 0, 1)); c.append(('D2', 2, 2, 0, 2))
+            else:
+                for d in ['D1', 'D2', 'D3', 'D5']:
+                    for w in (1, 2, 3):
+                        for t in (0, 1, 2, 3):
+                            c.append((d, w, t, 0, 3))
+                for w in (1, 2, 3):
+                    c.append(('D4', w, 0, 0, 4))
+        elif prop == 'C09':
+            if tier == 'quick':
+                c = [('B', 1, 2, 0, 2), ('B', 2, 2, 0, 1), ('B', 2, 2, 1, 1), ('B', 2, 3, 2, 1), ('B', 3, 2, 0, 0), ('B', 3, 3, 1, 0), ('B', 2, 1, 0, 2)]
+            else:
+                for v in (0, 1, 2):
+                    for w in (1, 2, 3):
+                        for t in (1, 2, 3):
+                            c.append(('B', w, t, v, 3))
+        elif prop == 'C11':
+            if tier == 'quick':
+                c = [('D1', 2, 2, 0, 1), ('D2', 2, 2, 0, 1), ('D3', 2, 2, 0, 1), ('D5', 2, 2, 0, 1), ('D4', 2, 0, 0, 1), ('B', 2, 2, 0, 1), ('B', 2, 3, 1, 0), ('D1', 3, 2, 0, 0)]
+            else:
+                for d in ['D1', 'D2', 'D3', 'D5']:
+                    for w in (2, 3):
+                        for t in (1, 2, 3):
+                            c.append((d, w, t, 0, 2))
+                c.append(('D4', 3, 0, 0, 2))
+                for v in (0, 1, 2):
+                    for w in (2, 3):
+                        for t in (2, 3):
+                            c.append(('B', w, t, v, 2))
+        # smallest first
+        c.sort(key=lambda x: (x[1] * 3 + x[2] * 4 + x[4] * 6, x[0]))
+        return c
+
+    DEADLINE = {'quick': 200, 'thorough': 2700}
+
+    def run_configs(self, binary, cfgs, deadline, t0):
+        """run configurations on NPROC cores, smallest first; returns list of result dicts"""
+        os.makedirs(SCRATCH, exist_ok=True)
+        pending = list(cfgs)
+        running = []
+        results = []
+        idx = 0
+        while pending or running:
+            while pending and len(running) < vlib.NPROC:
+                left = deadline - (time.time() - t0)
+                cfg = pending.pop(0)
+                if left < 3:
+                    results.append({'cfg': cfg, 'skipped': True})
+                    continue
+                d, w, t, v, b = cfg
+                out = os.path.join(SCRATCH, 'sx.%d.%d.json' % (os.getpid(), idx)); idx += 1
+                cmd = [binary, '--driver', d, '--workers', str(w), '--tasks', str(t), '--variant', str(v), '--bound', str(b), '--deadline', str(left), '--out', out]
+                running.append((subprocess.Popen(cmd, stdout=subprocess.DEVNULL, stderr=subprocess.PIPE), out, cfg))
+            still = []
+            for p, out, cfg in running:
+                if p.poll() is None:
+                    still.append((p, out, cfg))
+                    continue
+                if p.returncode != 0 or not os.path.exists(out):
+                    sys.stderr.write('sx failed rc=%s cfg=%s: %s\n' % (p.returncode, cfg, p.stderr.read().decode(errors='replace')[-1500:]))
+                    raise SystemExit(2)
+                r = json.load(open(out)); os.unlink(out)
+                r['cfg'] = cfg
+                results.append(r)
+            running = still
+            time.sleep(0.05)
+        return results
+
+    def replay_sched(self, binary, cfg, sched):
+        d, w, t, v, b = cfg
+        p = subprocess.run([binary, '--driver', d, '--workers', str(w), '--tasks', str(t), '--variant', str(v), '--replay', sched], stdout=subprocess.PIPE, stderr=subprocess.PIPE, text=True)
+        try:
+            return json.loads(p.stdout.strip().splitlines()[-1])
+        except Exception:
+            return {'outcome': -1, 'deterministic': False, 'detail': 'replay failed: ' + p.stderr[-300:]}
+
+    def replay(self, prop, path):
+        f = json.load(open(path))
+        b = vlib.build_tool(f.get('flavour', 'plain'), 'sx')
+        r = self.replay_sched(b, tuple(f['cfg']), f['schedule'])
+        ok = r.get('outcome') == f['outcome'] and r.get('deterministic')
+        log(('REPRODUCED ' if ok else 'NOT-REPRODUCED ') + path + ' ' + json.dumps(r)[:600])
+        return 1 if ok else 0
+
+    def run(self, prop, tier, seed, deadline=None):
+        t0 = time.time()
+        deadline = deadline or float(os.environ.get('VERIF_DEADLINE', self.DEADLINE[tier]))
+        flav = 'tsan' if prop == 'C11' else 'plain'
+        binary = vlib.build_tool(flav, 'sx')
+        cov = {'states': 0, 'transitions': 0, 'traces_validated_against_impl': 0, 'samples': [], 'exhaustive': True, 'schedules': 0,
+               'configurations': [], 'distinct_outcomes': {}, 'flavour': flav}
+        violations = []
+        bx_part = None
+        if prop == 'C09':
+            # data dimension: every input set x every cut x thread counts under the OS schedule (BX oracle C09)
+            bxe = BX()
+            bxb = vlib.build_tool('asan', 'bx')
+            scopes = ['sigma=2,L=2,pal=abc,stretch=1,pd=full,nf=1,kinds=HASHRPDACBlocks'] if tier == 'quick' else \
+                     ['sigma=2,L=2,pal=abc+sgn,stretch=1+130,pd=full,nf=1,kinds=HASHRPDACBlocks', 'sigma=3,L=2,pal=abc,stretch=1,pd=full,nf=1,kinds=HASHRPDACBlocks,maxn=5']
+            bx_part = {'scopes': [], 'failures': []}
+            for sc in scopes:
+                left = deadline * 0.4 - (time.time() - t0)
+                if left < 5:
+                    cov['exhaustive'] = False
+                    continue
+                m = bxe.run_scope(bxb, 'C09', sc, left, [])
+                bx_part['scopes'].append({'scope': sc, 'units': m['units'], 'subcells': m['subcells'], 'objects': m['objects'], 'transitions': m['transitions'], 'complete': m['complete']})
+                bx_part['failures'] += m['failures']
+                cov['states'] += m['objects']; cov['transitions'] += m['transitions']; cov['traces_validated_against_impl'] += m['subcells']
+                if not m['complete']:
+                    cov['exhaustive'] = False
+                cov['samples'] += m['samples'][:1]
+        results = self.run_configs(binary, self.configs(prop, tier), deadline, t0)
+        for r in results:
+            cfg = r['cfg']
+            if r.get('skipped'):
+                cov['exhaustive'] = False
+                cov['configurations'].append({'driver': cfg[0], 'workers': cfg[1], 'tasks_or_blocks': cfg[2], 'variant': cfg[3], 'bound_requested': cfg[4], 'skipped': 'deadline'})
+                continue
+            cov['states'] += r['states']; cov['transitions'] += r['transitions']; cov['schedules'] += r['executions']
+            cov['traces_validated_against_impl'] += r['executions']
+            if not r['complete']:
+                cov['exhaustive'] = False
+            for k, v in r['outcomes'].items():
+                name = OUTCOME.get(int(k), k)
+                cov['distinct_outcomes'][name] = cov['distinct_outcomes'].get(name, 0) + v
+            cov['configurations'].append({'driver': cfg[0], 'workers': cfg[1], 'tasks_or_blocks': cfg[2], 'variant': cfg[3], 'bound_requested': cfg[4],
+                                          'preemption_bound_completed': r['completed_bound'], 'schedules': r['executions'], 'per_bound': r['per_bound'],
+                                          'states': r['states'], 'max_choice_points': r['max_choice_points'], 'wall_s': r['wall_s']})
+            if len(cov['samples']) < 6:
+                cov['samples'] += [dict(s, driver=cfg[0], workers=cfg[1], tasks=cfg[2]) for s in r['samples'][:1]]
+            for v in r['violations']:
+                violations.append((cfg, v))
+        rc = 0
+        os.makedirs(REPLAYS, exist_ok=True)
+        seen = set()
+        for cfg, v in sorted(violations, key=lambda x: (x[1]['preemptions'], len(x[1]['schedule']))):
+            race = v.get('race', '')
+            if race:
+                race = vlib.symbolise_sig(binary, race)
+            key = (cfg[0], v['outcome'], re.sub(r'T\d+|obj\d+', '', v['detail'])[:60], re.sub(r'by T\d+', '', race)[:200])
+            if key in seen:
+                continue
+            seen.add(key)
+            rr = self.replay_sched(binary, cfg, v['schedule'])
+            name = '%s-%s.json' % (prop, hashlib.sha1(repr((cfg, v['schedule'])).encode()).hexdigest()[:10])
+            path = os.path.join(REPLAYS, name)
+            json.dump({'prop': prop, 'engine': 'SX', 'flavour': flav, 'cfg': list(cfg), 'schedule': v['schedule'], 'outcome': v['outcome'], 'outcome_name': OUTCOME.get(v['outcome']),
+                       'detail': v['detail'], 'race': race, 'trace': v['trace'], 'preemptions': v['preemptions']}, open(path, 'w'), indent=1)
+            if rr.get('outcome') != v['outcome'] or not rr.get('deterministic'):
+                log('UNREPRODUCED property=%s cfg=%s schedule=%s: %s' % (prop, cfg, v['schedule'], json.dumps(rr)[:300]))
+                rc = rc or 2
+                continue
+            log('VIOLATION property=%s replay=%s' % (prop, path))
+            log('   %s workers=%d tasks=%d: %s %s %s [preemptions=%d]' % (cfg[0], cfg[1], cfg[2], OUTCOME.get(v['outcome']), v['detail'][:200], race[:300], v['preemptions']))
+            rc = 1
+        nviol = len(seen)
+        if bx_part is not None:
+            res = Result(prop)
+            for f in bx_part['failures']:
+                f['flavour'] = 'asan'
+                res.add(f)
+            bxe = BX()
+            rc2 = res.finish(lambda f: bxe.replay_one(vlib.build_tool('asan', 'bx'), f))
+            rc = rc or rc2
+            nviol += len(res.unknown)
+            cov['data_dimension'] = bx_part['scopes']
+        cov['rule'] = ('every thread interleaving at pthread synchronisation points of the real code (unmodified parallel/Worker.hpp and block constructor, pthread_* interposed), '
+                       'iterative preemption bounding, each execution in a forked child; states = distinct abstract scheduler states at choice points, transitions = choice points executed, '
+                       'traces_validated = complete executions of the implementation')
+        if not cov['samples']:
+            cov['samples'] = [{'note': 'nothing executed'}]
+        vlib.write_evidence(prop, tier, seed, cov, time.time() - t0, nviol, self.ASSUME)
+        log('%s %s: %d configurations, %d schedules, %d states, outcomes=%s, exhaustive(within bounds)=%s, %.1fs, rc=%d' % (
+            prop, tier, len(cov['configurations']), cov['schedules'], cov['states'], cov['distinct_outcomes'], cov['exhaustive'], time.time() - t0, rc))
+        return rc
+
+
+_sx = SX()
+for _p in ['C09', 'C10', 'C11']:
+    ENGINES[_p] = _sx
